@@ -87,11 +87,15 @@ type hist struct {
 	rich   bool              // the temporary tree has siblings of logs/ and of <home>, and symbolic links
 	lr     *rand.Rand
 	beside []string // more files outside logs/ (relative to <home>)
-	lg     *logfile.FileLogger
+	lg     *logfile.FileLogger // the active logger (index act of all)
 	d, ms  int
 	cf     conf
 	id     string
 	oname  string
+	moved   int
+	awayDir string // where a logs directory that is moved away goes (outside the observed tree)
+	all    []*slot // every logger of this home (several histories have more than one); all[0] is logger 1
+	act    int
 	extN   int
 	err    error
 	stats  map[string]int
@@ -155,7 +159,19 @@ func (h *hist) obs() core.Ev {
 		return nil
 	})
 	h.seen = now
-	return core.Ev{"files": files, "dirs": dirs, "links": links, "out": h.outside()}
+	return core.Ev{"files": files, "dirs": dirs, "links": links, "out": h.outside(), "logs": h.logsState()}
+}
+
+// logsState: what stands at <home>/logs: a directory, nothing, or something that is no directory.
+func (h *hist) logsState() string {
+	st, err := os.Lstat(h.logs())
+	switch {
+	case err != nil:
+		return "none"
+	case st.IsDir():
+		return "dir"
+	}
+	return "file"
 }
 
 // linkEv describes the symbolic link logs/<rel>: the real place it leads to as the segments of its path
@@ -194,7 +210,10 @@ func (h *hist) outside() []core.Ev {
 			return nil
 		}
 		if p == logs {
-			return filepath.SkipDir
+			if de.IsDir() {
+				return filepath.SkipDir
+			}
+			return nil // a regular file put where the directory was: the fault itself, not a file to protect
 		}
 		if !de.Type().IsRegular() {
 			return nil
@@ -306,10 +325,17 @@ func (h *hist) open(id, oname string, level int) {
 }
 
 func (h *hist) close() {
-	if h.lg != nil {
-		h.lg.CloseForVerif()
-		h.lg = nil
+	h.park()
+	for _, s := range h.all {
+		if s.lg != nil {
+			s.lg.CloseForVerif()
+			s.lg = nil
+		}
 	}
+	if h.lg != nil && len(h.all) == 0 {
+		h.lg.CloseForVerif()
+	}
+	h.lg = nil
 }
 
 func levelName(lv int) string {
@@ -696,6 +722,9 @@ func (h *hist) layoutInside() {
 func (h *hist) end(gen string, cas int) {
 	h.close()
 	os.RemoveAll(h.root)
+	if h.awayDir != "" {
+		os.RemoveAll(h.awayDir)
+	}
 	keys := make([]string, 0, len(h.stats))
 	for k, v := range h.stats {
 		if v > 0 {
@@ -895,7 +924,31 @@ func genSeq(c *core.Ctx, t *core.Trace, cas int, steps int) error {
 		return h.err
 	}
 	for i := 0; i < steps && h.err == nil; i++ {
-		switch x := r.Intn(20); {
+		switch x := r.Intn(22); {
+		case x >= 20: // somebody else appends to / cuts short / removes a log file (also the one being written)
+			var own []string
+			for _, n := range h.seenNames() {
+				if strings.HasPrefix(n, id+"-") || strings.HasPrefix(n, "late") {
+					own = append(own, n)
+				}
+			}
+			if len(own) == 0 {
+				break
+			}
+			f := own[r.Intn(len(own))]
+			if r.Intn(3) == 0 {
+				f = h.curRel()
+			}
+			switch r.Intn(4) {
+			case 0, 1:
+				h.extAppend(f, []byte([]string{"appended by somebody else\n", "x", "no newline", "\n"}[r.Intn(4)]))
+			case 2:
+				if n := len(h.seen[f]); n > 0 {
+					h.extTrunc(f, r.Intn(n))
+				}
+			case 3:
+				h.extRemove(f)
+			}
 		case x < 8:
 			h.log(h.randCall())
 		case x < 11:
@@ -1323,6 +1376,7 @@ func Run(c *core.Ctx) error {
 	freezeClock()
 	c.Rule = "a history counts when it made at least one logging call, Read or cycle on the real FileLogger; distinct by (generator, case, action counts)"
 	t := c.Trace("c17", "Trace_FileLogger")
+	t2 := c.Trace("c17_env", "Trace_FileLogger") // several writers, faults, non-ASCII windows: judged by a second TLC beside the first
 	type job struct {
 		gen string
 		n   int
@@ -1336,6 +1390,10 @@ func Run(c *core.Ctx) error {
 		{"seq", c.Pick(40, 400), func(cas int) error { return genSeq(c, t, cas, c.Pick(40, 70)) }},
 		{"burst", c.Pick(4, 16), func(cas int) error { return genBurst(c, t, "burst", cas, 8, c.Pick(12, 30), false) }},
 		{"race", c.Pick(6, 30), func(cas int) error { return genBurst(c, t, "race", cas, 8, c.Pick(12, 30), true) }},
+		{"readmb", c.Pick(6, 24), func(cas int) error { return genReadMB(c, t2, cas) }},
+		{"fault", c.Pick(24, 120), func(cas int) error { return genFault(c, t2, cas) }},
+		{"duo", c.Pick(12, 120), func(cas int) error { return genDuo(c, t2, cas, c.Pick(40, 70)) }},
+		{"duoburst", c.Pick(4, 24), func(cas int) error { return genDuoBurst(c, t2, cas, 4, c.Pick(12, 30)) }},
 	}
 	for _, j := range jobs {
 		if !c.WantGen(j.gen) {
